@@ -60,7 +60,7 @@ TReset ==
 
 TPack ==
   /\ IsEvent("Pack")
-  /\ Pack(ev.b, ev.par, ev.p, ev.now, ev.txs, ev.cord)
+  /\ Pack(ev.b, ev.par, ev.p, ev.now, ev.txs, ev.cord, ev.opt)
   /\ LET B == blocks'[ev.b] IN
      /\ B.slot = ev.slot /\ B.score = ev.score /\ B.benef = ev.benef /\ B.num = ev.num
      /\ Matches(B.w, ev.post)
@@ -89,7 +89,17 @@ TPrune ==
   /\ hdr' = Without(hdr, ev.b) /\ obs' = Without(obs, ev.b)
   /\ l' = l + 1
 
-TNext == TReset \/ TPack \/ TValidate \/ TRestart \/ TPrune
+\* state-level comparison of the two implementations of "the first max-block-proposers endorsed candidates":
+\* validator side scheduler.Candidates.Pick, packer side authority.Candidates(check, GetMaxBlockProposers(params, true));
+\* ev.endorsed are the endorsement flags of the listed candidates in contract order, vlist / plist 1-based positions
+TPick ==
+  /\ IsEvent("Pick")
+  /\ SatFlags(ev.endorsed, ev.mbp) = ev.vlist
+  /\ SatFlags(ev.endorsed, ev.mbp) = ev.plist
+  /\ UNCHANGED <<blocks, vcache, res, hdr, obs>>
+  /\ l' = l + 1
+
+TNext == TReset \/ TPack \/ TValidate \/ TRestart \/ TPrune \/ TPick
 TSpec == TInit /\ [][TNext]_tvars
 
 \* every logged validation of a block: accepted, with the header's state root, receipts root and gas used
